@@ -128,6 +128,8 @@ type batchCase struct {
 	badVersion bool
 	badCount   bool
 	withIDs    bool
+	supported  []kmip.ProtocolVersion // nil: the executor's default set
+	version    *kmip.ProtocolVersion  // nil: 1.4 (or 2.0 when badVersion)
 }
 
 func (b batchCase) String() string {
@@ -135,13 +137,20 @@ func (b batchCase) String() string {
 	for _, x := range b.outcomes {
 		o = append(o, outcomeNames[x])
 	}
-	return fmt.Sprintf("items=[%s] option=%d unsupportedVersion=%v countMismatch=%v ids=%v", strings.Join(o, ","), b.option, b.badVersion, b.badCount, b.withIDs)
+	v := ""
+	if b.version != nil {
+		v = fmt.Sprintf(" version=%d.%d supported=%v", b.version.ProtocolVersionMajor, b.version.ProtocolVersionMinor, b.supported)
+	}
+	return fmt.Sprintf("items=[%s] option=%d unsupportedVersion=%v countMismatch=%v ids=%v%s", strings.Join(o, ","), b.option, b.badVersion, b.badCount, b.withIDs, v)
 }
 
 func buildRequest(b batchCase, reqID string, r *core.Rand) *kmip.RequestMessage {
 	m := &kmip.RequestMessage{Header: kmip.RequestHeader{ProtocolVersion: kmip.V1_4, BatchErrorContinuationOption: b.option}}
 	if b.badVersion {
 		m.Header.ProtocolVersion = kmip.ProtocolVersion{ProtocolVersionMajor: 2, ProtocolVersionMinor: 0}
+	}
+	if b.version != nil {
+		m.Header.ProtocolVersion = *b.version
 	}
 	for i, o := range b.outcomes {
 		id := fmt.Sprintf("%s/%d", reqID, i)
@@ -274,6 +283,11 @@ func firstStatus(r *kmip.ResponseMessage) any {
 	return r.BatchItem[0].ResultStatus
 }
 
+var requestVersions = []kmip.ProtocolVersion{{ProtocolVersionMajor: 0, ProtocolVersionMinor: 9}, kmip.V1_0, kmip.V1_1, kmip.V1_2, kmip.V1_3, kmip.V1_4,
+	{ProtocolVersionMajor: 1, ProtocolVersionMinor: 5}, {ProtocolVersionMajor: 2, ProtocolVersionMinor: 0}, {ProtocolVersionMajor: 2, ProtocolVersionMinor: 1},
+	// not 0.0: the zero value is how the library represents "no version could be read", answered as 1.0 by design
+	{ProtocolVersionMajor: 1, ProtocolVersionMinor: -1}, {ProtocolVersionMajor: 1, ProtocolVersionMinor: 1 << 30}}
+
 var options = []kmip.BatchErrorContinuationOption{0, kmip.BatchErrorContinuationOptionContinue, kmip.BatchErrorContinuationOptionStop, kmip.BatchErrorContinuationOptionUndo}
 
 // exhaustive enumeration index -> case
@@ -315,6 +329,9 @@ func enumSize(maxLen int) int {
 func direct(c *core.Ctx, b batchCase, r *core.Rand, panicIdx int) {
 	s := &script{outcomes: b.outcomes, panicIdx: panicIdx}
 	ex := newExecutor(func(string) *script { return s })
+	if b.supported != nil {
+		ex.SetSupportedProtocolVersions(append([]kmip.ProtocolVersion{}, b.supported...)...)
+	}
 	req := buildRequest(b, "direct", r)
 	var resp *kmip.ResponseMessage
 	if p, pv, st := core.Guard(func() { resp = ex.HandleRequest(context.Background(), req) }); p {
@@ -333,7 +350,7 @@ func Spec() *core.Spec {
 			"x continuation option {unset, Continue, Stop, Undo} x {supported, unsupported} version x {matching, mismatching} batch count x with/without item ids, through BatchExecutor.HandleRequest with instrumented handlers; " +
 			"seeded random batches of up to 40 items; a sample sent through a real server connection so ids and counts cross the wire. Compared with a 30-line reference model (item count/order/echo, counts, version, success/failure, handler trace). " +
 			"distinct = distinct (batch description, path) combinations",
-		Required: []string{"batches.direct", "batches.wire", "rejected_requests"},
+		Required: []string{"versions.supported", "versions.unsupported.in-a-gap", "batches.direct", "batches.wire", "rejected_requests"},
 		Families: []core.Family{
 			{Name: "exhaustive", Exhaustive: true, N: func(tier string) int {
 				if tier == core.Thorough {
@@ -353,6 +370,49 @@ func Spec() *core.Spec {
 				if i%997 == 0 {
 					c.Sample(b.String())
 				}
+			}},
+			{Name: "versions", Exhaustive: true, N: func(string) int { return 31 * len(requestVersions) * 2 }, Run: func(c *core.Ctx, r *core.Rand, i int) {
+				// every non-empty set of supported versions (given in a shuffled order) x request versions inside,
+				// between, below and above the set
+				mask := 1 + i%31
+				v := requestVersions[(i/31)%len(requestVersions)]
+				var sup []kmip.ProtocolVersion
+				member := false
+				for m := 0; m < 5; m++ {
+					if mask&(1<<m) != 0 {
+						pv := kmip.ProtocolVersion{ProtocolVersionMajor: 1, ProtocolVersionMinor: int32(m)}
+						sup = append(sup, pv)
+						if pv == v {
+							member = true
+						}
+					}
+				}
+				for k := len(sup) - 1; k > 0; k-- {
+					j := r.Intn(k + 1)
+					sup[k], sup[j] = sup[j], sup[k]
+				}
+				b := batchCase{option: options[(i/(31*len(requestVersions)))*2], badVersion: !member, withIDs: r.Bool(), supported: sup, version: &v}
+				for k, n := 0, 1+r.Intn(4); k < n; k++ {
+					b.outcomes = append(b.outcomes, oSuccess)
+				}
+				if member {
+					c.Count("versions.supported", 1)
+				} else {
+					c.Count("versions.unsupported", 1)
+					lo, hi := false, false
+					for _, pv := range sup {
+						if ttlv.CompareVersions(pv, v) < 0 {
+							lo = true
+						}
+						if ttlv.CompareVersions(pv, v) > 0 {
+							hi = true
+						}
+					}
+					if lo && hi {
+						c.Count("versions.unsupported.in-a-gap", 1)
+					}
+				}
+				direct(c, b, r, i)
 			}},
 			{Name: "random", N: func(tier string) int {
 				if tier == core.Thorough {
